@@ -1,7 +1,7 @@
 (* C17 — proofs about the model of CONNECT, the command parsers and number rendering (C17/Model.v). *)
 From Coq Require Import List ZArith Lia Bool.
 Import ListNotations.
-From V Require Import Base.U32 Base.Bytes Base.Iface Gen.MqttConsts C17.Model.
+From V Require Import Base.U32 Base.Bytes Base.Iface Gen.MqttConsts C17.Model C17.Render.
 Local Open Scope Z_scope.
 
 (* ------------------------------------------------------------------------------------------ *)
@@ -396,12 +396,6 @@ Qed.
 
 (* ------------------------------------------------------------------------------------------ *)
 (* the password handed to CONNECT is the complete configured password *)
-Definition nozero (l : list Z) : Prop := forallb (fun x => negb (x =? 0)) l = true.
-Lemma cstr_app_zero a b : nozero a -> cstr (a ++ 0 :: b) = a.
-Proof.
-  unfold nozero. induction a as [|x t IH]; intros H; cbn [app cstr]; [reflexivity|].
-  cbn [forallb] in H. apply andb_true_iff in H. destruct H as [H1 H2]. apply negb_true_iff in H1. rewrite H1, (IH H2). reflexivity.
-Qed.
 Lemma cstr_nozero a : nozero a -> cstr a = a.
 Proof.
   unfold nozero. induction a as [|x t IH]; intros H; cbn [cstr]; [reflexivity|].
@@ -456,72 +450,28 @@ Proof.
 Qed.
 
 (* ------------------------------------------------------------------------------------------ *)
-(* number rendering: specification = the exact decimal expansion of a / 10^prec without trailing zeros *)
-Fixpoint digits_of (fuel : nat) (a : Z) : list Z :=
-  match fuel with O => [] | S k => if a <? 10 then [48 + a] else digits_of k (a / 10) ++ [48 + a mod 10] end.
-Fixpoint strip0 (rev_l : list Z) : list Z := match rev_l with 48 :: t => strip0 t | _ => rev_l end.
-Definition render_spec (neg : bool) (a prec : Z) : list Z :=
-  let ds := digits_of 25 a in
-  let padded := repeat 48 (Z.to_nat (prec + 1 - len ds)) ++ ds in
-  let ip := take (len padded - prec) padded in
-  let fp := rev (strip0 (rev (drop (len padded - prec) padded))) in
-  (if neg then [45] else []) ++ ip ++ (match fp with [] => [] | _ => 46 :: fp end).
-Definition render_of_raw (is_unsigned : bool) (raw prec : Z) : list Z :=
-  let sval := if raw <? 9223372036854775808 then raw else raw - 18446744073709551616 in
-  if negb is_unsigned && (sval <? 0) then render_spec true (- sval) prec else render_spec false raw prec.
+(* number rendering: the specification `render_spec`, the theorem prepare_val = render_spec for all 64-bit values and
+   precision 0..20, the buffer bound and the parse-back theorem are in C17/Render.v.  Here: the spec applied to a raw
+   64-bit pattern, and a complete enumeration of small cases kept as an independent cross-check of spec and model. *)
+Definition render_of_raw (is_unsigned : bool) (raw prec : Z) : list Z := render_spec (value_of is_unsigned raw) (Z.to_nat prec).
 
-(* FULL STATEMENT (not proved for all values; the correspondence check compares the real code with an exact
-   decimal renderer over random and boundary 64-bit values):
-     forall u raw prec, 0 <= raw < 2^64 -> 0 <= prec <= 20 ->
-       prepare_val FIXED u raw prec = render_of_raw u raw prec /\ len (prepare_val FIXED u raw prec) <= 24.
-   Proved below: the same for magnitudes below 1000 in both signs, the 200 largest unsigned values and every
-   precision 0..20. *)
 Definition val_ok (u : bool) (raw prec : Z) : bool :=
   list_eqb (prepare_val FIXED u raw prec) (render_of_raw u raw prec) && (len (prepare_val FIXED u raw prec) <=? 24).
 Definition zrange (n : nat) : list Z := map Z.of_nat (seq 0 n).
-Lemma zrange_in n z : 0 <= z < Z.of_nat n -> In z (zrange n).
-Proof. intros H. unfold zrange. apply in_map_iff. exists (Z.to_nat z). split; [lia|]. apply in_seq. lia. Qed.
-
-Lemma val_small_table :
+Example val_small_table :
   forallb (fun p => forallb (fun r => val_ok true r p && val_ok false r p && val_ok false (18446744073709551615 - r) p)
-                            (zrange 1000)) (zrange 21) = true.
+                            (zrange 300)) (zrange 21) = true.
 Proof. vm_compute. reflexivity. Qed.
-Lemma val_large_table :
-  forallb (fun p => forallb (fun r => val_ok true (18446744073709551615 - r) p) (zrange 200)) (zrange 21) = true.
+Example val_large_table :
+  forallb (fun p => forallb (fun r => val_ok true (18446744073709551615 - r) p) (zrange 40)) (zrange 21) = true.
 Proof. vm_compute. reflexivity. Qed.
 
-Lemma tbl_small p r : In p (zrange 21) -> In r (zrange 1000) ->
-  val_ok true r p = true /\ val_ok false r p = true /\ val_ok false (18446744073709551615 - r) p = true.
-Proof.
-  intros Hp Hr. pose proof val_small_table as T. rewrite forallb_forall in T. specialize (T p Hp). rewrite forallb_forall in T.
-  specialize (T r Hr). cbv beta in T. apply andb_true_iff in T. destruct T as [T T3]. apply andb_true_iff in T. destruct T as [T1 T2]. auto.
-Qed.
-Lemma tbl_large p r : In p (zrange 21) -> In r (zrange 200) -> val_ok true (18446744073709551615 - r) p = true.
-Proof.
-  intros Hp Hr. pose proof val_large_table as T. rewrite forallb_forall in T. specialize (T p Hp). rewrite forallb_forall in T.
-  exact (T r Hr).
-Qed.
-
-(* kernel conversion must not start by evaluating the renderer on open terms *)
-Strategy 1000 [prepare_val render_of_raw].
-
-Theorem C17_number_rendering_partial_thm : forall u raw prec,
-  0 <= prec <= 20 ->
-  (0 <= raw < 1000 \/ (u = false /\ 18446744073709551616 - 1000 <= raw < 18446744073709551616) \/
-   (u = true /\ 18446744073709551616 - 200 <= raw < 18446744073709551616)) ->
+Theorem C17_number_rendering_thm : forall u raw prec,
+  0 <= raw < 18446744073709551616 -> 0 <= prec <= 20 ->
   prepare_val FIXED u raw prec = render_of_raw u raw prec /\ len (prepare_val FIXED u raw prec) <= 24.
 Proof.
-  intros u raw prec HP HR.
-  assert (V : val_ok u raw prec = true).
-  { destruct HR as [HR|[[-> HR]|[-> HR]]].
-    - destruct (tbl_small prec raw (zrange_in 21 prec ltac:(lia)) (zrange_in 1000 raw ltac:(lia))) as (A & B & C). destruct u; assumption.
-    - set (r := 18446744073709551615 - raw). assert (E : raw = 18446744073709551615 - r) by (unfold r; lia).
-      rewrite E. assert (Hr : 0 <= r < Z.of_nat 1000) by (unfold r; lia).
-      destruct (tbl_small prec r (zrange_in 21 prec ltac:(lia)) (zrange_in 1000 r Hr)) as (A & B & C). exact C.
-    - set (r := 18446744073709551615 - raw). assert (E : raw = 18446744073709551615 - r) by (unfold r; lia).
-      rewrite E. assert (Hr : 0 <= r < Z.of_nat 200) by (unfold r; lia).
-      exact (tbl_large prec r (zrange_in 21 prec ltac:(lia)) (zrange_in 200 r Hr)). }
-  unfold val_ok in V. apply andb_true_iff in V. destruct V as [V1 V2]. apply list_eqb_true in V1. apply Z.leb_le in V2. auto.
+  intros u raw prec HR HP. destruct (prepare_val_is_render_spec u raw prec HR HP) as (A & _ & _ & D).
+  unfold render_of_raw. rewrite A. auto.
 Qed.
 
 (* ------------------------------------------------------------------------------------------ *)
